@@ -125,17 +125,18 @@ impl<'a> Model<'a> {
 
 
 impl<'a> UserModel<'a> {
-pub fn redo_arm_SetArrayValue(&mut self, sheet: &u32, row: &i32, column: &i32, width: &i32, height: &i32, new_value: &String) -> (r: Result<(), String>)
+pub fn redo_arm_SetArrayValue(&mut self, sheet: &u32, row: &i32, column: &i32, width: &i32, height: &i32, new_value: &String) -> (r: Result<bool, String>)
     ensures r.is_ok() ==> final(self).model.log() == old(self).model.log() + redo_SetArrayValue(sheet, row, column, width, height, new_value),
             final(self).history == old(self).history, final(self).send_queue == old(self).send_queue,
+            r matches Ok(needs_evaluation) ==> needs_evaluation,   // contents or structure changed: the workbook is re-evaluated afterwards
 {
     #[allow(unused_assignments, unused_variables, unused_mut)] let mut needs_evaluation = false;
 //@arm base/src/user_model/undo_redo.rs UserModel::apply_diff_list `Diff::SetArrayValue {`
 //@end
     ;
-    Ok(())
+    Ok(needs_evaluation)
 }
-pub fn redo_arm_SetColumnWidth(&mut self, sheet: &u32, column: &i32, new_value: &f64, old_value: &f64) -> (r: Result<(), String>)
+pub fn redo_arm_SetColumnWidth(&mut self, sheet: &u32, column: &i32, new_value: &f64, old_value: &f64) -> (r: Result<bool, String>)
     ensures r.is_ok() ==> final(self).model.log() == old(self).model.log() + redo_SetColumnWidth(sheet, column, new_value, old_value),
             final(self).history == old(self).history, final(self).send_queue == old(self).send_queue,
 {
@@ -143,9 +144,9 @@ pub fn redo_arm_SetColumnWidth(&mut self, sheet: &u32, column: &i32, new_value: 
 //@arm base/src/user_model/undo_redo.rs UserModel::apply_diff_list `Diff::SetColumnWidth {`
 //@end
     ;
-    Ok(())
+    Ok(needs_evaluation)
 }
-pub fn undo_arm_SetColumnWidth(&mut self, sheet: &u32, column: &i32, new_value: &f64, old_value: &f64) -> (r: Result<(), String>)
+pub fn undo_arm_SetColumnWidth(&mut self, sheet: &u32, column: &i32, new_value: &f64, old_value: &f64) -> (r: Result<bool, String>)
     ensures r.is_ok() ==> final(self).model.log() == old(self).model.log() + undo_SetColumnWidth(sheet, column, new_value, old_value),
             final(self).history == old(self).history, final(self).send_queue == old(self).send_queue,
 {
@@ -153,9 +154,9 @@ pub fn undo_arm_SetColumnWidth(&mut self, sheet: &u32, column: &i32, new_value: 
 //@arm base/src/user_model/undo_redo.rs UserModel::apply_undo_diff_list `Diff::SetColumnWidth {`
 //@end
     ;
-    Ok(())
+    Ok(needs_evaluation)
 }
-pub fn redo_arm_SetColumnHidden(&mut self, sheet: &u32, column: &i32, new_value: &bool, old_value: &bool) -> (r: Result<(), String>)
+pub fn redo_arm_SetColumnHidden(&mut self, sheet: &u32, column: &i32, new_value: &bool, old_value: &bool) -> (r: Result<bool, String>)
     ensures r.is_ok() ==> final(self).model.log() == old(self).model.log() + redo_SetColumnHidden(sheet, column, new_value, old_value),
             final(self).history == old(self).history, final(self).send_queue == old(self).send_queue,
 {
@@ -163,9 +164,9 @@ pub fn redo_arm_SetColumnHidden(&mut self, sheet: &u32, column: &i32, new_value:
 //@arm base/src/user_model/undo_redo.rs UserModel::apply_diff_list `Diff::SetColumnHidden {`
 //@end
     ;
-    Ok(())
+    Ok(needs_evaluation)
 }
-pub fn undo_arm_SetColumnHidden(&mut self, sheet: &u32, column: &i32, new_value: &bool, old_value: &bool) -> (r: Result<(), String>)
+pub fn undo_arm_SetColumnHidden(&mut self, sheet: &u32, column: &i32, new_value: &bool, old_value: &bool) -> (r: Result<bool, String>)
     ensures r.is_ok() ==> final(self).model.log() == old(self).model.log() + undo_SetColumnHidden(sheet, column, new_value, old_value),
             final(self).history == old(self).history, final(self).send_queue == old(self).send_queue,
 {
@@ -173,9 +174,9 @@ pub fn undo_arm_SetColumnHidden(&mut self, sheet: &u32, column: &i32, new_value:
 //@arm base/src/user_model/undo_redo.rs UserModel::apply_undo_diff_list `Diff::SetColumnHidden {`
 //@end
     ;
-    Ok(())
+    Ok(needs_evaluation)
 }
-pub fn redo_arm_SetRowHeight(&mut self, sheet: &u32, row: &i32, new_value: &f64, old_value: &f64) -> (r: Result<(), String>)
+pub fn redo_arm_SetRowHeight(&mut self, sheet: &u32, row: &i32, new_value: &f64, old_value: &f64) -> (r: Result<bool, String>)
     ensures r.is_ok() ==> final(self).model.log() == old(self).model.log() + redo_SetRowHeight(sheet, row, new_value, old_value),
             final(self).history == old(self).history, final(self).send_queue == old(self).send_queue,
 {
@@ -183,9 +184,9 @@ pub fn redo_arm_SetRowHeight(&mut self, sheet: &u32, row: &i32, new_value: &f64,
 //@arm base/src/user_model/undo_redo.rs UserModel::apply_diff_list `Diff::SetRowHeight {`
 //@end
     ;
-    Ok(())
+    Ok(needs_evaluation)
 }
-pub fn undo_arm_SetRowHeight(&mut self, sheet: &u32, row: &i32, new_value: &f64, old_value: &f64) -> (r: Result<(), String>)
+pub fn undo_arm_SetRowHeight(&mut self, sheet: &u32, row: &i32, new_value: &f64, old_value: &f64) -> (r: Result<bool, String>)
     ensures r.is_ok() ==> final(self).model.log() == old(self).model.log() + undo_SetRowHeight(sheet, row, new_value, old_value),
             final(self).history == old(self).history, final(self).send_queue == old(self).send_queue,
 {
@@ -193,9 +194,9 @@ pub fn undo_arm_SetRowHeight(&mut self, sheet: &u32, row: &i32, new_value: &f64,
 //@arm base/src/user_model/undo_redo.rs UserModel::apply_undo_diff_list `Diff::SetRowHeight {`
 //@end
     ;
-    Ok(())
+    Ok(needs_evaluation)
 }
-pub fn redo_arm_SetRowHidden(&mut self, sheet: &u32, row: &i32, new_value: &bool, old_value: &bool) -> (r: Result<(), String>)
+pub fn redo_arm_SetRowHidden(&mut self, sheet: &u32, row: &i32, new_value: &bool, old_value: &bool) -> (r: Result<bool, String>)
     ensures r.is_ok() ==> final(self).model.log() == old(self).model.log() + redo_SetRowHidden(sheet, row, new_value, old_value),
             final(self).history == old(self).history, final(self).send_queue == old(self).send_queue,
 {
@@ -203,9 +204,9 @@ pub fn redo_arm_SetRowHidden(&mut self, sheet: &u32, row: &i32, new_value: &bool
 //@arm base/src/user_model/undo_redo.rs UserModel::apply_diff_list `Diff::SetRowHidden {`
 //@end
     ;
-    Ok(())
+    Ok(needs_evaluation)
 }
-pub fn undo_arm_SetRowHidden(&mut self, sheet: &u32, row: &i32, new_value: &bool, old_value: &bool) -> (r: Result<(), String>)
+pub fn undo_arm_SetRowHidden(&mut self, sheet: &u32, row: &i32, new_value: &bool, old_value: &bool) -> (r: Result<bool, String>)
     ensures r.is_ok() ==> final(self).model.log() == old(self).model.log() + undo_SetRowHidden(sheet, row, new_value, old_value),
             final(self).history == old(self).history, final(self).send_queue == old(self).send_queue,
 {
@@ -213,69 +214,75 @@ pub fn undo_arm_SetRowHidden(&mut self, sheet: &u32, row: &i32, new_value: &bool
 //@arm base/src/user_model/undo_redo.rs UserModel::apply_undo_diff_list `Diff::SetRowHidden {`
 //@end
     ;
-    Ok(())
+    Ok(needs_evaluation)
 }
-pub fn redo_arm_InsertRows(&mut self, sheet: &u32, row: &i32, count: &i32) -> (r: Result<(), String>)
+pub fn redo_arm_InsertRows(&mut self, sheet: &u32, row: &i32, count: &i32) -> (r: Result<bool, String>)
     ensures r.is_ok() ==> final(self).model.log() == old(self).model.log() + redo_InsertRows(sheet, row, count),
             final(self).history == old(self).history, final(self).send_queue == old(self).send_queue,
+            r matches Ok(needs_evaluation) ==> needs_evaluation,   // contents or structure changed: the workbook is re-evaluated afterwards
 {
     #[allow(unused_assignments, unused_variables, unused_mut)] let mut needs_evaluation = false;
 //@arm base/src/user_model/undo_redo.rs UserModel::apply_diff_list `Diff::InsertRows {`
 //@end
     ;
-    Ok(())
+    Ok(needs_evaluation)
 }
-pub fn undo_arm_InsertRows(&mut self, sheet: &u32, row: &i32, count: &i32) -> (r: Result<(), String>)
+pub fn undo_arm_InsertRows(&mut self, sheet: &u32, row: &i32, count: &i32) -> (r: Result<bool, String>)
     ensures r.is_ok() ==> final(self).model.log() == old(self).model.log() + undo_InsertRows(sheet, row, count),
             final(self).history == old(self).history, final(self).send_queue == old(self).send_queue,
+            r matches Ok(needs_evaluation) ==> needs_evaluation,   // contents or structure changed: the workbook is re-evaluated afterwards
 {
     #[allow(unused_assignments, unused_variables, unused_mut)] let mut needs_evaluation = false;
 //@arm base/src/user_model/undo_redo.rs UserModel::apply_undo_diff_list `Diff::InsertRows {`
 //@end
     ;
-    Ok(())
+    Ok(needs_evaluation)
 }
-pub fn redo_arm_InsertColumns(&mut self, sheet: &u32, column: &i32, count: &i32) -> (r: Result<(), String>)
+pub fn redo_arm_InsertColumns(&mut self, sheet: &u32, column: &i32, count: &i32) -> (r: Result<bool, String>)
     ensures r.is_ok() ==> final(self).model.log() == old(self).model.log() + redo_InsertColumns(sheet, column, count),
             final(self).history == old(self).history, final(self).send_queue == old(self).send_queue,
+            r matches Ok(needs_evaluation) ==> needs_evaluation,   // contents or structure changed: the workbook is re-evaluated afterwards
 {
     #[allow(unused_assignments, unused_variables, unused_mut)] let mut needs_evaluation = false;
 //@arm base/src/user_model/undo_redo.rs UserModel::apply_diff_list `Diff::InsertColumns {`
 //@end
     ;
-    Ok(())
+    Ok(needs_evaluation)
 }
-pub fn undo_arm_InsertColumns(&mut self, sheet: &u32, column: &i32, count: &i32) -> (r: Result<(), String>)
+pub fn undo_arm_InsertColumns(&mut self, sheet: &u32, column: &i32, count: &i32) -> (r: Result<bool, String>)
     ensures r.is_ok() ==> final(self).model.log() == old(self).model.log() + undo_InsertColumns(sheet, column, count),
             final(self).history == old(self).history, final(self).send_queue == old(self).send_queue,
+            r matches Ok(needs_evaluation) ==> needs_evaluation,   // contents or structure changed: the workbook is re-evaluated afterwards
 {
     #[allow(unused_assignments, unused_variables, unused_mut)] let mut needs_evaluation = false;
 //@arm base/src/user_model/undo_redo.rs UserModel::apply_undo_diff_list `Diff::InsertColumns {`
 //@end
     ;
-    Ok(())
+    Ok(needs_evaluation)
 }
-pub fn redo_arm_DeleteRows(&mut self, sheet: &u32, row: &i32, count: &i32) -> (r: Result<(), String>)
+pub fn redo_arm_DeleteRows(&mut self, sheet: &u32, row: &i32, count: &i32) -> (r: Result<bool, String>)
     ensures r.is_ok() ==> final(self).model.log() == old(self).model.log() + redo_DeleteRows(sheet, row, count),
             final(self).history == old(self).history, final(self).send_queue == old(self).send_queue,
+            r matches Ok(needs_evaluation) ==> needs_evaluation,   // contents or structure changed: the workbook is re-evaluated afterwards
 {
     #[allow(unused_assignments, unused_variables, unused_mut)] let mut needs_evaluation = false;
 //@arm base/src/user_model/undo_redo.rs UserModel::apply_diff_list `Diff::DeleteRows {`
 //@end
     ;
-    Ok(())
+    Ok(needs_evaluation)
 }
-pub fn redo_arm_DeleteColumns(&mut self, sheet: &u32, column: &i32, count: &i32) -> (r: Result<(), String>)
+pub fn redo_arm_DeleteColumns(&mut self, sheet: &u32, column: &i32, count: &i32) -> (r: Result<bool, String>)
     ensures r.is_ok() ==> final(self).model.log() == old(self).model.log() + redo_DeleteColumns(sheet, column, count),
             final(self).history == old(self).history, final(self).send_queue == old(self).send_queue,
+            r matches Ok(needs_evaluation) ==> needs_evaluation,   // contents or structure changed: the workbook is re-evaluated afterwards
 {
     #[allow(unused_assignments, unused_variables, unused_mut)] let mut needs_evaluation = false;
 //@arm base/src/user_model/undo_redo.rs UserModel::apply_diff_list `Diff::DeleteColumns {`
 //@end
     ;
-    Ok(())
+    Ok(needs_evaluation)
 }
-pub fn redo_arm_SetFrozenRowsCount(&mut self, sheet: &u32, new_value: &i32, old_value: &i32) -> (r: Result<(), String>)
+pub fn redo_arm_SetFrozenRowsCount(&mut self, sheet: &u32, new_value: &i32, old_value: &i32) -> (r: Result<bool, String>)
     ensures r.is_ok() ==> final(self).model.log() == old(self).model.log() + redo_SetFrozenRowsCount(sheet, new_value, old_value),
             final(self).history == old(self).history, final(self).send_queue == old(self).send_queue,
 {
@@ -283,9 +290,9 @@ pub fn redo_arm_SetFrozenRowsCount(&mut self, sheet: &u32, new_value: &i32, old_
 //@arm base/src/user_model/undo_redo.rs UserModel::apply_diff_list `Diff::SetFrozenRowsCount {`
 //@end
     ;
-    Ok(())
+    Ok(needs_evaluation)
 }
-pub fn undo_arm_SetFrozenRowsCount(&mut self, sheet: &u32, new_value: &i32, old_value: &i32) -> (r: Result<(), String>)
+pub fn undo_arm_SetFrozenRowsCount(&mut self, sheet: &u32, new_value: &i32, old_value: &i32) -> (r: Result<bool, String>)
     ensures r.is_ok() ==> final(self).model.log() == old(self).model.log() + undo_SetFrozenRowsCount(sheet, new_value, old_value),
             final(self).history == old(self).history, final(self).send_queue == old(self).send_queue,
 {
@@ -293,9 +300,9 @@ pub fn undo_arm_SetFrozenRowsCount(&mut self, sheet: &u32, new_value: &i32, old_
 //@arm base/src/user_model/undo_redo.rs UserModel::apply_undo_diff_list `Diff::SetFrozenRowsCount {`
 //@end
     ;
-    Ok(())
+    Ok(needs_evaluation)
 }
-pub fn redo_arm_SetFrozenColumnsCount(&mut self, sheet: &u32, new_value: &i32, old_value: &i32) -> (r: Result<(), String>)
+pub fn redo_arm_SetFrozenColumnsCount(&mut self, sheet: &u32, new_value: &i32, old_value: &i32) -> (r: Result<bool, String>)
     ensures r.is_ok() ==> final(self).model.log() == old(self).model.log() + redo_SetFrozenColumnsCount(sheet, new_value, old_value),
             final(self).history == old(self).history, final(self).send_queue == old(self).send_queue,
 {
@@ -303,9 +310,9 @@ pub fn redo_arm_SetFrozenColumnsCount(&mut self, sheet: &u32, new_value: &i32, o
 //@arm base/src/user_model/undo_redo.rs UserModel::apply_diff_list `Diff::SetFrozenColumnsCount {`
 //@end
     ;
-    Ok(())
+    Ok(needs_evaluation)
 }
-pub fn undo_arm_SetFrozenColumnsCount(&mut self, sheet: &u32, new_value: &i32, old_value: &i32) -> (r: Result<(), String>)
+pub fn undo_arm_SetFrozenColumnsCount(&mut self, sheet: &u32, new_value: &i32, old_value: &i32) -> (r: Result<bool, String>)
     ensures r.is_ok() ==> final(self).model.log() == old(self).model.log() + undo_SetFrozenColumnsCount(sheet, new_value, old_value),
             final(self).history == old(self).history, final(self).send_queue == old(self).send_queue,
 {
@@ -313,9 +320,9 @@ pub fn undo_arm_SetFrozenColumnsCount(&mut self, sheet: &u32, new_value: &i32, o
 //@arm base/src/user_model/undo_redo.rs UserModel::apply_undo_diff_list `Diff::SetFrozenColumnsCount {`
 //@end
     ;
-    Ok(())
+    Ok(needs_evaluation)
 }
-pub fn redo_arm_RenameSheet(&mut self, index: &u32, old_value: &String, new_value: &String) -> (r: Result<(), String>)
+pub fn redo_arm_RenameSheet(&mut self, index: &u32, old_value: &String, new_value: &String) -> (r: Result<bool, String>)
     ensures r.is_ok() ==> final(self).model.log() == old(self).model.log() + redo_RenameSheet(index, old_value, new_value),
             final(self).history == old(self).history, final(self).send_queue == old(self).send_queue,
 {
@@ -323,9 +330,9 @@ pub fn redo_arm_RenameSheet(&mut self, index: &u32, old_value: &String, new_valu
 //@arm base/src/user_model/undo_redo.rs UserModel::apply_diff_list `Diff::RenameSheet {`
 //@end
     ;
-    Ok(())
+    Ok(needs_evaluation)
 }
-pub fn undo_arm_RenameSheet(&mut self, index: &u32, old_value: &String, new_value: &String) -> (r: Result<(), String>)
+pub fn undo_arm_RenameSheet(&mut self, index: &u32, old_value: &String, new_value: &String) -> (r: Result<bool, String>)
     ensures r.is_ok() ==> final(self).model.log() == old(self).model.log() + undo_RenameSheet(index, old_value, new_value),
             final(self).history == old(self).history, final(self).send_queue == old(self).send_queue,
 {
@@ -333,9 +340,9 @@ pub fn undo_arm_RenameSheet(&mut self, index: &u32, old_value: &String, new_valu
 //@arm base/src/user_model/undo_redo.rs UserModel::apply_undo_diff_list `Diff::RenameSheet {`
 //@end
     ;
-    Ok(())
+    Ok(needs_evaluation)
 }
-pub fn redo_arm_SetSheetColor(&mut self, index: &u32, old_value: &Color, new_value: &Color) -> (r: Result<(), String>)
+pub fn redo_arm_SetSheetColor(&mut self, index: &u32, old_value: &Color, new_value: &Color) -> (r: Result<bool, String>)
     ensures r.is_ok() ==> final(self).model.log() == old(self).model.log() + redo_SetSheetColor(index, old_value, new_value),
             final(self).history == old(self).history, final(self).send_queue == old(self).send_queue,
 {
@@ -343,9 +350,9 @@ pub fn redo_arm_SetSheetColor(&mut self, index: &u32, old_value: &Color, new_val
 //@arm base/src/user_model/undo_redo.rs UserModel::apply_diff_list `Diff::SetSheetColor {`
 //@end
     ;
-    Ok(())
+    Ok(needs_evaluation)
 }
-pub fn undo_arm_SetSheetColor(&mut self, index: &u32, old_value: &Color, new_value: &Color) -> (r: Result<(), String>)
+pub fn undo_arm_SetSheetColor(&mut self, index: &u32, old_value: &Color, new_value: &Color) -> (r: Result<bool, String>)
     ensures r.is_ok() ==> final(self).model.log() == old(self).model.log() + undo_SetSheetColor(index, old_value, new_value),
             final(self).history == old(self).history, final(self).send_queue == old(self).send_queue,
 {
@@ -353,9 +360,9 @@ pub fn undo_arm_SetSheetColor(&mut self, index: &u32, old_value: &Color, new_val
 //@arm base/src/user_model/undo_redo.rs UserModel::apply_undo_diff_list `Diff::SetSheetColor {`
 //@end
     ;
-    Ok(())
+    Ok(needs_evaluation)
 }
-pub fn redo_arm_SetShowGridLines(&mut self, sheet: &u32, old_value: &bool, new_value: &bool) -> (r: Result<(), String>)
+pub fn redo_arm_SetShowGridLines(&mut self, sheet: &u32, old_value: &bool, new_value: &bool) -> (r: Result<bool, String>)
     ensures r.is_ok() ==> final(self).model.log() == old(self).model.log() + redo_SetShowGridLines(sheet, old_value, new_value),
             final(self).history == old(self).history, final(self).send_queue == old(self).send_queue,
 {
@@ -363,9 +370,9 @@ pub fn redo_arm_SetShowGridLines(&mut self, sheet: &u32, old_value: &bool, new_v
 //@arm base/src/user_model/undo_redo.rs UserModel::apply_diff_list `Diff::SetShowGridLines {`
 //@end
     ;
-    Ok(())
+    Ok(needs_evaluation)
 }
-pub fn undo_arm_SetShowGridLines(&mut self, sheet: &u32, old_value: &bool, new_value: &bool) -> (r: Result<(), String>)
+pub fn undo_arm_SetShowGridLines(&mut self, sheet: &u32, old_value: &bool, new_value: &bool) -> (r: Result<bool, String>)
     ensures r.is_ok() ==> final(self).model.log() == old(self).model.log() + undo_SetShowGridLines(sheet, old_value, new_value),
             final(self).history == old(self).history, final(self).send_queue == old(self).send_queue,
 {
@@ -373,9 +380,9 @@ pub fn undo_arm_SetShowGridLines(&mut self, sheet: &u32, old_value: &bool, new_v
 //@arm base/src/user_model/undo_redo.rs UserModel::apply_undo_diff_list `Diff::SetShowGridLines {`
 //@end
     ;
-    Ok(())
+    Ok(needs_evaluation)
 }
-pub fn redo_arm_SetSheetState(&mut self, index: &u32, old_value: &SheetState, new_value: &SheetState) -> (r: Result<(), String>)
+pub fn redo_arm_SetSheetState(&mut self, index: &u32, old_value: &SheetState, new_value: &SheetState) -> (r: Result<bool, String>)
     ensures r.is_ok() ==> final(self).model.log() == old(self).model.log() + redo_SetSheetState(index, old_value, new_value),
             final(self).history == old(self).history, final(self).send_queue == old(self).send_queue,
 {
@@ -383,9 +390,9 @@ pub fn redo_arm_SetSheetState(&mut self, index: &u32, old_value: &SheetState, ne
 //@arm base/src/user_model/undo_redo.rs UserModel::apply_diff_list `Diff::SetSheetState {`
 //@end
     ;
-    Ok(())
+    Ok(needs_evaluation)
 }
-pub fn undo_arm_SetSheetState(&mut self, index: &u32, old_value: &SheetState, new_value: &SheetState) -> (r: Result<(), String>)
+pub fn undo_arm_SetSheetState(&mut self, index: &u32, old_value: &SheetState, new_value: &SheetState) -> (r: Result<bool, String>)
     ensures r.is_ok() ==> final(self).model.log() == old(self).model.log() + undo_SetSheetState(index, old_value, new_value),
             final(self).history == old(self).history, final(self).send_queue == old(self).send_queue,
 {
@@ -393,53 +400,57 @@ pub fn undo_arm_SetSheetState(&mut self, index: &u32, old_value: &SheetState, ne
 //@arm base/src/user_model/undo_redo.rs UserModel::apply_undo_diff_list `Diff::SetSheetState {`
 //@end
     ;
-    Ok(())
+    Ok(needs_evaluation)
 }
-pub fn redo_arm_MoveColumns(&mut self, sheet: &u32, column: &i32, column_count: &i32, delta: &i32) -> (r: Result<(), String>)
+pub fn redo_arm_MoveColumns(&mut self, sheet: &u32, column: &i32, column_count: &i32, delta: &i32) -> (r: Result<bool, String>)
     requires small(*column as int), small(*delta as int)
     ensures r.is_ok() ==> final(self).model.log() == old(self).model.log() + redo_MoveColumns(sheet, column, column_count, delta),
             final(self).history == old(self).history, final(self).send_queue == old(self).send_queue,
+            r matches Ok(needs_evaluation) ==> needs_evaluation,   // contents or structure changed: the workbook is re-evaluated afterwards
 {
     #[allow(unused_assignments, unused_variables, unused_mut)] let mut needs_evaluation = false;
 //@arm base/src/user_model/undo_redo.rs UserModel::apply_diff_list `Diff::MoveColumns {`
 //@end
     ;
-    Ok(())
+    Ok(needs_evaluation)
 }
-pub fn undo_arm_MoveColumns(&mut self, sheet: &u32, column: &i32, column_count: &i32, delta: &i32) -> (r: Result<(), String>)
+pub fn undo_arm_MoveColumns(&mut self, sheet: &u32, column: &i32, column_count: &i32, delta: &i32) -> (r: Result<bool, String>)
     requires small(*column as int), small(*delta as int)
     ensures r.is_ok() ==> final(self).model.log() == old(self).model.log() + undo_MoveColumns(sheet, column, column_count, delta),
             final(self).history == old(self).history, final(self).send_queue == old(self).send_queue,
+            r matches Ok(needs_evaluation) ==> needs_evaluation,   // contents or structure changed: the workbook is re-evaluated afterwards
 {
     #[allow(unused_assignments, unused_variables, unused_mut)] let mut needs_evaluation = false;
 //@arm base/src/user_model/undo_redo.rs UserModel::apply_undo_diff_list `Diff::MoveColumns {`
 //@end
     ;
-    Ok(())
+    Ok(needs_evaluation)
 }
-pub fn redo_arm_MoveRows(&mut self, sheet: &u32, row: &i32, row_count: &i32, delta: &i32) -> (r: Result<(), String>)
+pub fn redo_arm_MoveRows(&mut self, sheet: &u32, row: &i32, row_count: &i32, delta: &i32) -> (r: Result<bool, String>)
     requires small(*row as int), small(*delta as int)
     ensures r.is_ok() ==> final(self).model.log() == old(self).model.log() + redo_MoveRows(sheet, row, row_count, delta),
             final(self).history == old(self).history, final(self).send_queue == old(self).send_queue,
+            r matches Ok(needs_evaluation) ==> needs_evaluation,   // contents or structure changed: the workbook is re-evaluated afterwards
 {
     #[allow(unused_assignments, unused_variables, unused_mut)] let mut needs_evaluation = false;
 //@arm base/src/user_model/undo_redo.rs UserModel::apply_diff_list `Diff::MoveRows {`
 //@end
     ;
-    Ok(())
+    Ok(needs_evaluation)
 }
-pub fn undo_arm_MoveRows(&mut self, sheet: &u32, row: &i32, row_count: &i32, delta: &i32) -> (r: Result<(), String>)
+pub fn undo_arm_MoveRows(&mut self, sheet: &u32, row: &i32, row_count: &i32, delta: &i32) -> (r: Result<bool, String>)
     requires small(*row as int), small(*delta as int)
     ensures r.is_ok() ==> final(self).model.log() == old(self).model.log() + undo_MoveRows(sheet, row, row_count, delta),
             final(self).history == old(self).history, final(self).send_queue == old(self).send_queue,
+            r matches Ok(needs_evaluation) ==> needs_evaluation,   // contents or structure changed: the workbook is re-evaluated afterwards
 {
     #[allow(unused_assignments, unused_variables, unused_mut)] let mut needs_evaluation = false;
 //@arm base/src/user_model/undo_redo.rs UserModel::apply_undo_diff_list `Diff::MoveRows {`
 //@end
     ;
-    Ok(())
+    Ok(needs_evaluation)
 }
-pub fn redo_arm_SetLocale(&mut self, old_value: &String, new_value: &String) -> (r: Result<(), String>)
+pub fn redo_arm_SetLocale(&mut self, old_value: &String, new_value: &String) -> (r: Result<bool, String>)
     ensures r.is_ok() ==> final(self).model.log() == old(self).model.log() + redo_SetLocale(old_value, new_value),
             final(self).history == old(self).history, final(self).send_queue == old(self).send_queue,
 {
@@ -447,9 +458,9 @@ pub fn redo_arm_SetLocale(&mut self, old_value: &String, new_value: &String) -> 
 //@arm base/src/user_model/undo_redo.rs UserModel::apply_diff_list `Diff::SetLocale {`
 //@end
     ;
-    Ok(())
+    Ok(needs_evaluation)
 }
-pub fn undo_arm_SetLocale(&mut self, old_value: &String, new_value: &String) -> (r: Result<(), String>)
+pub fn undo_arm_SetLocale(&mut self, old_value: &String, new_value: &String) -> (r: Result<bool, String>)
     ensures r.is_ok() ==> final(self).model.log() == old(self).model.log() + undo_SetLocale(old_value, new_value),
             final(self).history == old(self).history, final(self).send_queue == old(self).send_queue,
 {
@@ -457,9 +468,9 @@ pub fn undo_arm_SetLocale(&mut self, old_value: &String, new_value: &String) -> 
 //@arm base/src/user_model/undo_redo.rs UserModel::apply_undo_diff_list `Diff::SetLocale {`
 //@end
     ;
-    Ok(())
+    Ok(needs_evaluation)
 }
-pub fn redo_arm_SetTimezone(&mut self, old_value: &String, new_value: &String) -> (r: Result<(), String>)
+pub fn redo_arm_SetTimezone(&mut self, old_value: &String, new_value: &String) -> (r: Result<bool, String>)
     ensures r.is_ok() ==> final(self).model.log() == old(self).model.log() + redo_SetTimezone(old_value, new_value),
             final(self).history == old(self).history, final(self).send_queue == old(self).send_queue,
 {
@@ -467,9 +478,9 @@ pub fn redo_arm_SetTimezone(&mut self, old_value: &String, new_value: &String) -
 //@arm base/src/user_model/undo_redo.rs UserModel::apply_diff_list `Diff::SetTimezone {`
 //@end
     ;
-    Ok(())
+    Ok(needs_evaluation)
 }
-pub fn undo_arm_SetTimezone(&mut self, old_value: &String, new_value: &String) -> (r: Result<(), String>)
+pub fn undo_arm_SetTimezone(&mut self, old_value: &String, new_value: &String) -> (r: Result<bool, String>)
     ensures r.is_ok() ==> final(self).model.log() == old(self).model.log() + undo_SetTimezone(old_value, new_value),
             final(self).history == old(self).history, final(self).send_queue == old(self).send_queue,
 {
@@ -477,9 +488,9 @@ pub fn undo_arm_SetTimezone(&mut self, old_value: &String, new_value: &String) -
 //@arm base/src/user_model/undo_redo.rs UserModel::apply_undo_diff_list `Diff::SetTimezone {`
 //@end
     ;
-    Ok(())
+    Ok(needs_evaluation)
 }
-pub fn redo_arm_DeleteColumnStyle(&mut self, sheet: &u32, column: &i32) -> (r: Result<(), String>)
+pub fn redo_arm_DeleteColumnStyle(&mut self, sheet: &u32, column: &i32) -> (r: Result<bool, String>)
     ensures r.is_ok() ==> final(self).model.log() == old(self).model.log() + redo_DeleteColumnStyle(sheet, column),
             final(self).history == old(self).history, final(self).send_queue == old(self).send_queue,
 {
@@ -487,9 +498,9 @@ pub fn redo_arm_DeleteColumnStyle(&mut self, sheet: &u32, column: &i32) -> (r: R
 //@arm base/src/user_model/undo_redo.rs UserModel::apply_diff_list `Diff::DeleteColumnStyle {`
 //@end
     ;
-    Ok(())
+    Ok(needs_evaluation)
 }
-pub fn redo_arm_DeleteRowStyle(&mut self, sheet: &u32, row: &i32) -> (r: Result<(), String>)
+pub fn redo_arm_DeleteRowStyle(&mut self, sheet: &u32, row: &i32) -> (r: Result<bool, String>)
     ensures r.is_ok() ==> final(self).model.log() == old(self).model.log() + redo_DeleteRowStyle(sheet, row),
             final(self).history == old(self).history, final(self).send_queue == old(self).send_queue,
 {
@@ -497,9 +508,9 @@ pub fn redo_arm_DeleteRowStyle(&mut self, sheet: &u32, row: &i32) -> (r: Result<
 //@arm base/src/user_model/undo_redo.rs UserModel::apply_diff_list `Diff::DeleteRowStyle {`
 //@end
     ;
-    Ok(())
+    Ok(needs_evaluation)
 }
-pub fn redo_arm_CreateDefinedName(&mut self, name: &String, scope: &Option<u32>, value: &String) -> (r: Result<(), String>)
+pub fn redo_arm_CreateDefinedName(&mut self, name: &String, scope: &Option<u32>, value: &String) -> (r: Result<bool, String>)
     ensures r.is_ok() ==> final(self).model.log() == old(self).model.log() + redo_CreateDefinedName(name, scope, value),
             final(self).history == old(self).history, final(self).send_queue == old(self).send_queue,
 {
@@ -507,9 +518,9 @@ pub fn redo_arm_CreateDefinedName(&mut self, name: &String, scope: &Option<u32>,
 //@arm base/src/user_model/undo_redo.rs UserModel::apply_diff_list `Diff::CreateDefinedName {`
 //@end
     ;
-    Ok(())
+    Ok(needs_evaluation)
 }
-pub fn undo_arm_CreateDefinedName(&mut self, name: &String, scope: &Option<u32>, value: &String) -> (r: Result<(), String>)
+pub fn undo_arm_CreateDefinedName(&mut self, name: &String, scope: &Option<u32>, value: &String) -> (r: Result<bool, String>)
     ensures r.is_ok() ==> final(self).model.log() == old(self).model.log() + undo_CreateDefinedName(name, scope, value),
             final(self).history == old(self).history, final(self).send_queue == old(self).send_queue,
 {
@@ -517,9 +528,9 @@ pub fn undo_arm_CreateDefinedName(&mut self, name: &String, scope: &Option<u32>,
 //@arm base/src/user_model/undo_redo.rs UserModel::apply_undo_diff_list `Diff::CreateDefinedName {`
 //@end
     ;
-    Ok(())
+    Ok(needs_evaluation)
 }
-pub fn redo_arm_DeleteDefinedName(&mut self, name: &String, scope: &Option<u32>, old_value: &String) -> (r: Result<(), String>)
+pub fn redo_arm_DeleteDefinedName(&mut self, name: &String, scope: &Option<u32>, old_value: &String) -> (r: Result<bool, String>)
     ensures r.is_ok() ==> final(self).model.log() == old(self).model.log() + redo_DeleteDefinedName(name, scope, old_value),
             final(self).history == old(self).history, final(self).send_queue == old(self).send_queue,
 {
@@ -527,9 +538,9 @@ pub fn redo_arm_DeleteDefinedName(&mut self, name: &String, scope: &Option<u32>,
 //@arm base/src/user_model/undo_redo.rs UserModel::apply_diff_list `Diff::DeleteDefinedName {`
 //@end
     ;
-    Ok(())
+    Ok(needs_evaluation)
 }
-pub fn undo_arm_DeleteDefinedName(&mut self, name: &String, scope: &Option<u32>, old_value: &String) -> (r: Result<(), String>)
+pub fn undo_arm_DeleteDefinedName(&mut self, name: &String, scope: &Option<u32>, old_value: &String) -> (r: Result<bool, String>)
     ensures r.is_ok() ==> final(self).model.log() == old(self).model.log() + undo_DeleteDefinedName(name, scope, old_value),
             final(self).history == old(self).history, final(self).send_queue == old(self).send_queue,
 {
@@ -537,7 +548,7 @@ pub fn undo_arm_DeleteDefinedName(&mut self, name: &String, scope: &Option<u32>,
 //@arm base/src/user_model/undo_redo.rs UserModel::apply_undo_diff_list `Diff::DeleteDefinedName {`
 //@end
     ;
-    Ok(())
+    Ok(needs_evaluation)
 }
 // ---- sheet-structure undo arms (hand-written section, tools/arms_extra.rs) ----
     // set_selected_sheet lives in ui.rs; here it only records which sheet is selected (ASSUMED: Ok => recorded, Err => nothing)
